@@ -88,6 +88,7 @@ type pathState struct {
 	lockEvents      int
 	condWaitHook    value
 	recursionLimit  int
+	stepLimit       int64 // verifStepLimit: more steps than this is non-termination (fatal)
 	condSignals     int
 	labelFilter     func(string) bool
 	condBroadcasts  int
